@@ -124,6 +124,13 @@ func (r *Run) stuckOracle(reason, settle simrt.Reason) {
 
 // leakOracle: every goroutine the library started has exited.
 func (r *Run) leakOracle(when string) {
+	if r.ctx.Err() != nil {
+		for _, st := range r.srcs {
+			if st.innerCtx != nil && st.innerCtx.Err() == nil {
+				r.fail("C08.leak", "%s: the watching source set on the Blank of slot %d was started under a context that is still live although the Config context has ended: that watcher (its goroutine, its descriptors) never stops", when, st.idx)
+			}
+		}
+	}
 	for _, t := range r.sim.Tasks() {
 		if t.Lib && t.State != simrt.Exited {
 			if r.sc.GlobalCB == "block" && r.probes["callback-blocked"] > 0 && strings.HasPrefix(t.Name, "cb_mgr.go") {
